@@ -149,6 +149,11 @@ class CallMixin(ExprMixin):
     # ------------------------------------------------------------------ functions
     def call_function(self, st: State, ctx: Ctx, fi: FuncInfo, args: list, kwargs: dict, line: int, env: Ref | None):
         key = fi.key()
+        if key in self.R.overrides:
+            modname, _, attr = self.R.overrides[key].rpartition(".")
+            stub = self.P.modules[modname].functions[attr]
+            self.trusted_used.add(f"{key} -> {stub.key()} (override)")
+            return self.inline_call(st, ctx, stub, args, kwargs, line, None)
         c = self.R.contracts.get(key)
         if c is not None and "inline_unless_abstract" in c.env and args:
             # a contract stated for an abstract receiver does not speak for a concrete class that has its own
